@@ -37,7 +37,7 @@ def a_rules(files, rules=A_ALL):
 PROPERTIES = {
     "C01": {
         "level": "other",
-        "rules": a_rules(ALG) + ["E1", "E2", "E3", "E5", "B6", "B7", "F15", "F17"],
+        "rules": a_rules(ALG) + ["E1", "E2", "E3", "E5", "E6", "B6", "B7", "F15", "F17"],
         "explanation": "Decided for all inputs: (1) every index handed to a diff hook by the three algorithms, every index "
                        "into a caller-ranged sequence and every range passed between the algorithm functions is an absolute "
                        "position of the right side and coordinate frame (A1-A5, A7: sort inference over the type-checked HIR "
@@ -48,7 +48,7 @@ PROPERTIES = {
     },
     "C02": {
         "level": "other",
-        "rules": ["F1", "F2", "F5", "B5", "G3", "G5", "G6", "G7", "F13", "F16", "E2", "E3", "E5"] + a_rules(PIPE + ALG),
+        "rules": ["F1", "F2", "F5", "B5", "G3", "G5", "G6", "G7", "F13", "F16", "E2", "E3", "E5", "E6"] + a_rules(PIPE + ALG),
         "explanation": "Decided: the capture pipeline is Compact(Replace(Capture)) and returns that hook's ops (F1); Compact "
                        "replays every buffered op once, in order, then finishes, Replace flushes in order (B5); every op "
                        "constructed or forwarded in compact/replace/capture/common/types takes old-side fields from old-"
@@ -138,7 +138,7 @@ PROPERTIES = {
     },
     "C11": {
         "level": "other",
-        "rules": ["G1", "G5", "F5", "F10", "A4", "A9", "A11", "E3", "E5",
+        "rules": ["G1", "G3", "G5", "G6", "G7", "F5", "F10", "F16", "A4", "A9", "A11", "E3", "E5", "E6",
                   ("A1", infile("types.rs", "algorithms/compact.rs", "algorithms/replace.rs", "algorithms/lcs.rs",
                                 "algorithms/myers.rs", "algorithms/patience.rs"))],
         "explanation": "Decided: every order-changing operation on a list of ops is followed by a rewrite of the affected "
